@@ -3,6 +3,7 @@
 package pdf
 
 import (
+	"bytes"
 	"compress/zlib"
 	"io"
 
@@ -389,6 +390,8 @@ type sFile struct {
 	trailer Dict
 	ok      bool
 	why     string
+
+	containers map[int64]*sContainer
 }
 
 func sFail(why string) *sFile { return &sFile{why: why} }
@@ -595,6 +598,84 @@ func sReadXRef(d []byte) *sFile {
 }
 
 // sGet fetches object n through the strict reader.
+// sContainer is a validated object stream: its decoded body and header table.
+type sContainer struct {
+	body  []byte
+	first int64
+	nums  []int64
+	offs  []int64
+}
+
+// container decodes and validates object stream number num once.
+func (f *sFile) container(d []byte, num int64, getLen func(Reference) (int64, bool)) *sContainer {
+	if c, done := f.containers[num]; done {
+		return c
+	}
+	if f.containers == nil {
+		f.containers = map[int64]*sContainer{}
+	}
+	f.containers[num] = nil
+	ce, ok := f.entries[num]
+	if !ok || ce.kind != 1 {
+		return nil
+	}
+	c, ok := sIndirect(d, ce.f2, getLen)
+	if !ok || !c.isStream || c.num != num || c.gen != 0 {
+		return nil
+	}
+	dict := c.val.(Dict)
+	if dict["Type"] != Name("ObjStm") {
+		return nil
+	}
+	N, ok1 := dict["N"].(Integer)
+	first, ok2 := dict["First"].(Integer)
+	if !ok1 || !ok2 || N < 0 {
+		return nil
+	}
+	body := c.data
+	if dict["Filter"] != nil {
+		var ok bool
+		body, ok = sInflate(c.data)
+		if !ok {
+			return nil
+		}
+	}
+	if int(first) > len(body) || first < 0 {
+		return nil
+	}
+	res := &sContainer{body: body, first: int64(first)}
+	h := &sParser{d: body[:first]}
+	prevOff := int64(-1)
+	for i := int64(0); i < int64(N); i++ {
+		h.ws()
+		num, _, okn := h.uint(10)
+		h.ws()
+		off, _, oko := h.uint(10)
+		if !okn || !oko || off <= prevOff {
+			return nil // offsets strictly increasing
+		}
+		if i > 0 {
+			// each member starts right after the white space that ends
+			// its predecessor
+			at := int(first) + int(off)
+			if at > len(body) || at == 0 || !sIsWS(body[at-1]) || (at < len(body) && sIsWS(body[at])) {
+				return nil
+			}
+		} else if off != 0 {
+			return nil
+		}
+		prevOff = off
+		res.nums = append(res.nums, num)
+		res.offs = append(res.offs, off)
+	}
+	h.ws()
+	if h.p != len(h.d) {
+		return nil // surplus bytes in the offset table
+	}
+	f.containers[num] = res
+	return res
+}
+
 func (f *sFile) get(d []byte, n int64) (val Object, stm *sObject, ok bool) {
 	e, present := f.entries[n]
 	if !present {
@@ -625,67 +706,11 @@ func (f *sFile) get(d []byte, n int64) (val Object, stm *sObject, ok bool) {
 		}
 		return o.val, nil, true
 	default:
-		ce, ok := f.entries[e.f2]
-		if !ok || ce.kind != 1 {
+		c := f.container(d, e.f2, getLen)
+		if c == nil || e.f3 < 0 || e.f3 >= int64(len(c.nums)) || c.nums[e.f3] != n {
 			return nil, nil, false
 		}
-		c, ok := sIndirect(d, ce.f2, getLen)
-		if !ok || !c.isStream || c.num != e.f2 || c.gen != 0 {
-			return nil, nil, false
-		}
-		dict := c.val.(Dict)
-		if dict["Type"] != Name("ObjStm") {
-			return nil, nil, false
-		}
-		N, ok1 := dict["N"].(Integer)
-		first, ok2 := dict["First"].(Integer)
-		if !ok1 || !ok2 || e.f3 < 0 || e.f3 >= int64(N) {
-			return nil, nil, false
-		}
-		body := c.data
-		if dict["Filter"] != nil {
-			var ok bool
-			body, ok = sInflate(c.data)
-			if !ok {
-				return nil, nil, false
-			}
-		}
-		if int(first) > len(body) {
-			return nil, nil, false
-		}
-		h := &sParser{d: body[:first]}
-		prevOff := int64(-1)
-		var myOff int64 = -1
-		for i := int64(0); i < int64(N); i++ {
-			h.ws()
-			num, _, okn := h.uint(10)
-			h.ws()
-			off, _, oko := h.uint(10)
-			if !okn || !oko || off <= prevOff {
-				return nil, nil, false // offsets strictly increasing
-			}
-			if i > 0 {
-				// each member starts right after the white space that ends
-				// its predecessor
-				at := int(first) + int(off)
-				if at > len(body) || at == 0 || !sIsWS(body[at-1]) || (at < len(body) && sIsWS(body[at])) {
-					return nil, nil, false
-				}
-			} else if off != 0 {
-				return nil, nil, false
-			}
-			prevOff = off
-			if i == e.f3 {
-				if num != n {
-					return nil, nil, false
-				}
-				myOff = off
-			}
-		}
-		h.ws()
-		if h.p != len(h.d) {
-			return nil, nil, false // surplus bytes in the offset table
-		}
+		body, first, myOff := c.body, c.first, c.offs[e.f3]
 		m := &sParser{d: body, p: int(first) + int(myOff)}
 		v := m.value(0)
 		if m.bad {
@@ -772,4 +797,60 @@ func Verif_C03_strict() {
 		return
 	}
 	verifStrictCheck(doc)
+}
+
+// Verif_C03_many_objects: one WriteCompressed call (and, alternatively, a
+// run of Puts) with n objects for every n up to 260 (beyond the one-byte
+// limit of the index and object number fields of a cross-reference stream),
+// judged by the strict reader.
+func Verif_C03_many_objects() {
+	defer verifFixRand()()
+	verifrt.Unwind(40000)
+	doc := &verifDoc{}
+	c := []verifConfig{{V1_7, false, false}, {V2_0, false, true}, {V1_4, false, false}, {V1_7, true, true}}[verifrt.Choice("config", 2+2*verifrt.Tier())]
+	doc.version, doc.human, doc.seekable = c.v, c.human, c.seekable
+	sb := &verifSeekBuf{}
+	w, err := NewWriter(sb, doc.version, &WriterOptions{HumanReadable: doc.human})
+	verifrt.Assert(err == nil, "NewWriter succeeds")
+	if err != nil {
+		return
+	}
+	n := verifrt.Len("n", 1, 260)
+	refs := make([]Reference, n)
+	objs := make([]Object, n)
+	for i := range refs {
+		refs[i] = w.Alloc()
+		objs[i] = Integer(1000 + i)
+		doc.objs = append(doc.objs, verifExpObj{refs[i], objs[i]})
+	}
+	if verifrt.Choice("how", 2) == 0 {
+		verifrt.Assert(w.WriteCompressed(refs, objs...) == nil, "WriteCompressed succeeds")
+		doc.compressed = refs
+	} else {
+		for i := range refs {
+			verifrt.Assert(w.Put(refs[i], objs[i]) == nil, "Put succeeds")
+		}
+	}
+	doc.pagesRef = w.Alloc()
+	w.GetMeta().Catalog.Pages = doc.pagesRef
+	verifrt.Assert(w.Close() == nil, "Close succeeds")
+	doc.file = sb.b
+	verifStrictCheck(doc)
+	if verifrt.Tier() == 0 {
+		return
+	}
+	// and the library's own reader agrees
+	r, err := NewReader(bytes.NewReader(doc.file), int64(len(doc.file)), nil)
+	verifrt.Assert(err == nil, "file opens")
+	if err != nil {
+		return
+	}
+	all := true
+	for i := range refs {
+		v, err := r.Get(refs[i], true)
+		if err != nil || v != objs[i] {
+			all = false
+		}
+	}
+	verifrt.Assert(all, "every object reads back")
 }
